@@ -36,7 +36,7 @@ def run(tier):
     from wrapplan import WrapPlan
     return multiprop.run("C14", tier, [
         ("op-layer (kani)", lambda: kaniprop.run("C14", tier, PLAN, ASSUMPTIONS)),
-        ("wrapper-layer (mirsym)", lambda: mirprop.run("C14", tier, WrapPlan("compio-net", ["compio-driver/io-uring"]), WRAP_ASSUMPTIONS)),
+        ("wrapper-layer (mirsym)", lambda: mirprop.run("C14", tier, WrapPlan("compio-net", ["compio-driver/io-uring"], exclude=r"::close$"), WRAP_ASSUMPTIONS)),
     ])
 
 
